@@ -193,7 +193,8 @@ CHECKS["C11"] = dict(
     rule="rapid draws a stateful GraphSpec, paradigm, release order, yield count and number of concurrent runs; non-trivial = >= 2 gated bodies observed waiting at once or a nested stateful graph; distinct = FNV-1a of case JSON",
     assumptions=GRAPH_ASSUME,
     parts=[rapid_part("rapid", "compose", "TestC11", 1500, 96000, race=True, replay_test="TestC11Replay", replay_reps=5),
-           rapid_part("resume", "compose", "TestC11Resume", 1500, 48000, qshards=4, race=False, replay_test="TestC11ResumeReplay", replay_reps=10)],
+           rapid_part("resume", "compose", "TestC11Resume", 1500, 48000, qshards=4, race=False, replay_test="TestC11ResumeReplay", replay_reps=10),
+           rapid_part("shared", "compose", "TestC11Shared", 4000, 400000, race=True, replay_test="TestC11SharedReplay")],
 )
 
 CHECKS["C17"] = dict(
